@@ -239,10 +239,25 @@ func retTag(isNil bool, err error) string {
 // opD3: decode into a fresh constructor result; dump the receiver afterwards (also on failure).
 func opD3(level, vec string, nilRecv bool) string { return opD3x(level, vec, nilRecv, true) }
 
+// preVec, when set, is decoded into the constructor result before the operation proper (RD3 / RD2:
+// re-use of a decoder object; whatever the first Decode returned is ignored)
+var preVec *string
+
+func withPre(pre string, f func() string) string {
+	preVec = &pre
+	defer func() { preVec = nil }()
+	return f()
+}
+
 func opD3x(level, vec string, nilRecv bool, withFlags bool) string {
 	switch level {
 	case "B":
 		recv := m3.NewBase()
+		if preVec != nil {
+			pre := *preVec
+			preVec = nil         // (the flags below decode with fresh objects)
+			recv.Decode(pre) // RD ops: the receiver has been used for an earlier Decode
+		}
 		var r *m3.Base
 		var err error
 		if nilRecv {
@@ -273,6 +288,11 @@ func opD3x(level, vec string, nilRecv bool, withFlags bool) string {
 		return out
 	case "T":
 		recv := m3.NewTemporal()
+		if preVec != nil {
+			pre := *preVec
+			preVec = nil         // (the flags below decode with fresh objects)
+			recv.Decode(pre) // RD ops: the receiver has been used for an earlier Decode
+		}
 		var r *m3.Temporal
 		var err error
 		if nilRecv {
@@ -303,6 +323,11 @@ func opD3x(level, vec string, nilRecv bool, withFlags bool) string {
 		return out
 	case "E":
 		recv := m3.NewEnvironmental()
+		if preVec != nil {
+			pre := *preVec
+			preVec = nil         // (the flags below decode with fresh objects)
+			recv.Decode(pre) // RD ops: the receiver has been used for an earlier Decode
+		}
 		var r *m3.Environmental
 		var err error
 		if nilRecv {
@@ -341,6 +366,11 @@ func opD2x(level, vec string, nilRecv bool, withFlags bool) string {
 	switch level {
 	case "B":
 		recv := m2.NewBase()
+		if preVec != nil {
+			pre := *preVec
+			preVec = nil         // (the flags below decode with fresh objects)
+			recv.Decode(pre) // RD ops: the receiver has been used for an earlier Decode
+		}
 		var r *m2.Base
 		var err error
 		if nilRecv {
@@ -371,6 +401,11 @@ func opD2x(level, vec string, nilRecv bool, withFlags bool) string {
 		return out
 	case "T":
 		recv := m2.NewTemporal()
+		if preVec != nil {
+			pre := *preVec
+			preVec = nil         // (the flags below decode with fresh objects)
+			recv.Decode(pre) // RD ops: the receiver has been used for an earlier Decode
+		}
 		var r *m2.Temporal
 		var err error
 		if nilRecv {
@@ -401,6 +436,11 @@ func opD2x(level, vec string, nilRecv bool, withFlags bool) string {
 		return out
 	case "E":
 		recv := m2.NewEnvironmental()
+		if preVec != nil {
+			pre := *preVec
+			preVec = nil         // (the flags below decode with fresh objects)
+			recv.Decode(pre) // RD ops: the receiver has been used for an earlier Decode
+		}
 		var r *m2.Environmental
 		var err error
 		if nilRecv {
@@ -617,6 +657,10 @@ func runOp(line string) (out string) {
 		return opD2(arg(1), unhx(arg(2)), false)
 	case "N2":
 		return opD2(arg(1), unhx(arg(2)), true)
+	case "RD3":
+		return withPre(unhx(arg(2)), func() string { return opD3x(arg(1), unhx(arg(3)), false, true) })
+	case "RD2":
+		return withPre(unhx(arg(2)), func() string { return opD2x(arg(1), unhx(arg(3)), false, true) })
 	}
 	if r, ok := runOpExt(f); ok {
 		return r
